@@ -28,7 +28,9 @@ def lcase(ptag, minsev, fid, members, ops):
     return "\t".join(["log", ptag, str(minsev), str(fid), str(members), ";".join(ops)])
 
 
-ITEM_PATTERNS = [[], ["s"], ["L"], ["s", "L"], ["L", "s"], ["i", "c", "d"], ["L", "L"], ["s", "i", "L", "s"], ["p", "L", "d"]]
+ITEM_PATTERNS = [[], ["s"], ["L"], ["s", "L"], ["L", "s"], ["i", "c", "d"], ["L", "L"], ["s", "i", "L", "s"], ["p", "L", "d"],
+                 # x: a value whose inserter leaves the statement's stream in the failed state
+                 ["s", "x", "L", "s"], ["x", "L", "L"], ["L", "x", "s"]]
 
 
 def mk_items(pattern, base):
@@ -44,6 +46,8 @@ def mk_items(pattern, base):
             out.append(item("c", "xyz"[(base + k) % 3]))
         elif kind == "d":
             out.append(item("d", ["1.5", "-0.25", "100", "0"][(base + k) % 4]))
+        elif kind == "x":
+            out.append(item("x", ""))
         else:
             out.append(item("L", "lz%d" % k, 10 * (base % 7) + k))
     return out
@@ -108,7 +112,7 @@ def gen_log(ptag, tier, rng):
                 ops.append("thr:%d:%d" % (rng.below(3), rng.below(6)))
             elif rng.chance(1, 6):
                 sa = rng.below(6)
-                ops.append(ov(sa, rng.choice([None, "a"]), mk_items([rng.choice("sLi") for _ in range(rng.below(4))], rng.below(1000)),
+                ops.append(ov(sa, rng.choice([None, "a"]), mk_items([rng.choice("sLixL") for _ in range(rng.below(4))], rng.below(1000)),
                               rng.choice([sa, (sa + 1) % 6]), rng.choice([None, "b"]),
                               mk_items([rng.choice("sLd") for _ in range(rng.below(4))], rng.below(1000))))
             else:
